@@ -39,10 +39,13 @@ def process_inputs(pid: str, inputs: List[Tuple[Any, Dict[str, Any]]]) -> Dict[s
     cases: List[Tuple[Any, Case]] = []
     traced: set = set()
     for k_, (idx, inp) in enumerate(inputs):
-        if k_ < TRACE_PER_CHUNK:
-            cases.append((idx, _traced_build(mod, inp, traced)))
-        else:
-            cases.append((idx, mod.build(inp)))
+        try:
+            if k_ < TRACE_PER_CHUNK:
+                cases.append((idx, _traced_build(mod, inp, traced)))
+            else:
+                cases.append((idx, mod.build(inp)))
+        except (common.ResourceLimit, MemoryError):
+            cases.append((idx, Case(pid, dict(inp), [], lambda outs: [], ("resource-limit(MemoryError): not judged",), 1, [])))
     lines: List[str] = []
     spans = []
     for _, c in cases:
